@@ -251,6 +251,8 @@ def crafted(spec: dict) -> list:
     if t == "other" and spec["name"].startswith("hyperv:"):
         c.append(["hyperv_objtable_self", 0])
         c.append(["hyperv_objtable_loop2", 0])
+        for depth in (12, 20):
+            c.append(["hyperv_objtable_dupchain", depth])
         c.append(["hyperv_entry_size_zero_walk", 0])
     if t == "chain" and spec["ccase"]["kind"] == "vhdx":
         c.append(["vhdx_parent_is_self", 0])
@@ -396,6 +398,25 @@ def _f_hyperv_objtable_loop2(world, b, spec, _):
     tbl[8:26] = struct.pack("<BIQIB", 1, 0, 0x2000, 0x1000, 1)
     f.write(far, bytes(tbl))
     _set_bytes(f, 0x2000 + 8, struct.pack("<BIQIB", 1, 0, far, 0x1000, 1))
+
+
+def _f_hyperv_objtable_dupchain(world, b, spec, depth):
+    """No cycle: object table i references table i+1 twice. Loading a table once per path costs 2**depth loads."""
+    import struct
+
+    f = _hv_file(world)
+    base = (f.length + 0xFFF) & ~0xFFF
+    stride = 0x100
+    for i in range(depth):
+        off = base + i * stride
+        nxt = base + (i + 1) * stride
+        ents = b""
+        if i + 1 < depth:
+            ents = struct.pack("<BIQIB", 1, 0, nxt, stride, 1) * 2
+        f.write(off, struct.pack("<II", 0x01110001, len(ents) // 18) + ents)
+    f.set_length(base + depth * stride)
+    _set_bytes(f, 0x2000 + 8, struct.pack("<BIQIB", 1, 0, base, stride, 1))
+    _set_bytes(f, 0x2000 + 8 + 18, struct.pack("<BIQIB", 1, 0, base, stride, 1))
 
 
 def _f_hyperv_entry_size_zero_walk(world, b, spec, _):
